@@ -942,8 +942,8 @@ example : Points.beq (⟨⟨[("x", 1), ("t", 1)]⟩, [1], [[5, 5]]⟩ : Points N
   decide
 
 
-/-! ## full-strength statements that are NOT proved yet (listed in obligations/C12.json as
-    `unproved_statements`; each is exercised on every run by the correspondence and its oracle) -/
+/-! ## full-strength statements that were open after the first phase; all are proved in
+    TPV.Props.C12b (`C12_mask_spec`, `C12_repeat_spec`, `C12_getitem_all`, `C12_coords_from`) -/
 
 /-- the rows of `d` whose mask entry is true, in order -/
 def maskRows {β : Type} : List β → List Bool → List β
@@ -982,11 +982,9 @@ def C12_full_coords_from : Prop :=
     Points.fromCoordinates cs = .ok p → cs ≠ [] →
     p.coords.map (fun c => (c.name, c.shape, c.width, c.rows)) = cs.map (fun c => (c.name, c.shape, c.width, c.rows))
 
-/-- the invariant of `Points.__init__` is kept by every operation (histories) -/
-def C12_full_history_wf : Prop :=
-  ∀ (α : Type) (p q r : Points α), p.WF → q.WF →
-    (∀ ix, p.getitem ix = .ok r → r.WF) ∧ (∀ ix, p.setitem ix q = .ok r → r.WF) ∧
-    (p.join q = .ok r → r.WF) ∧ (p.cat q = .ok r → r.WF) ∧ (∀ ns, p.repeat ns = .ok r → r.WF) ∧
-    (∀ d, p.unsqueeze d = .ok r → r.WF) ∧ (∀ f, p.arith f q = .ok r → r.WF)
+/- The invariant statement lives in TPV.Props.C12b (`history_inv`): it is stated over sequences of
+   operations and needs, besides `Points.WF`, that the variable names are distinct (what a dict
+   guarantees) — without that hypothesis it is false of the model and of the code's logic
+   (a name-slice key addresses columns by name). -/
 
 end TPV.Table
